@@ -212,6 +212,7 @@ def make_dec_view(cls, dialect, hooks=None, staged=False):
         out = []
         for fv in g1.schema_view(cls):
             gen = genf()
+            gen.owner = gen.owner or cls
             t = hints[fv.name]
             # field level: nullable fields get None for None (FROM_SPEC), so reference the inner type
             inner = t  # the full annotation (Annotated / NewType aliases are customization keys)
@@ -258,6 +259,7 @@ def make_enc_view(cls, dialect):
         out = []
         for fv in g2.pack_view(cls):
             gen = genf()
+            gen.owner = gen.owner or cls
             t = hints[fv.name]
             inner = t
             st_ = ref.strip(t)
